@@ -6,7 +6,7 @@ import re
 from .. import tables
 
 BV = 'midnight_zk_stdlib::batch_verify'
-CL = BV + '::{closure#0}'
+CL = BV + '::{closure#0}'      # replaced at run time by the closure that calls prepare (closure numbers shift when closures are added)
 PREP = 'midnight_proofs::plonk::verifier::prepare'
 DM = 'midnight_proofs::poly::kzg::msm::DualMSM'
 GBV = 'midnight_proofs::poly::commitment::Guard::batch_verify'
@@ -30,6 +30,8 @@ def run(ck):
 
 
 def r1_member(ck, w):
+    global CL
+    CL = w.closure_calling(BV, lambda c: c == PREP)
     ck.rule('C15.R1', 'per-member must-call order in batch_verify closure: prepare → squeeze_challenge(member transcript) → '
                       'common(batching transcript) → assert_empty, on every success path')
     b = w.mir_body(CL)
